@@ -20,7 +20,9 @@ from harness.common import sim
 PROP = "C25"
 LEAN_MODULES = ["LunaVerif.Props.C25", "LunaVerif.Lemmas.C25Tx12", "LunaVerif.Lemmas.C25TxIo", "LunaVerif.Props.C25Tx",
                 "LunaVerif.Lemmas.C25RxFront", "LunaVerif.Lemmas.C25RxBack", "LunaVerif.Props.C25Rx",
-                "LunaVerif.Lemmas.C25RxFifo"]
+                "LunaVerif.Lemmas.C25RxFifo", "LunaVerif.Lemmas.C25RxFifoStream", "LunaVerif.Lemmas.C25RxFifoSpaced",
+                "LunaVerif.Lemmas.C25RxCdc", "LunaVerif.Lemmas.C25RxCdcStreams", "LunaVerif.Lemmas.C25RxCdcPacket",
+                "LunaVerif.Props.C25RxUsb"]
 DRIVER = "Driver/C25.lean"
 REQUIRED_THEOREMS = ["decode_encode", "no_seven_ones_on_wire", "stuff_error_detected", "never_drives_in_nondriving",
                      "pulls_follow_requests",
@@ -31,7 +33,8 @@ REQUIRED_THEOREMS = ["decode_encode", "no_seven_ones_on_wire", "stuff_error_dete
                      "rx_pipeline_decodes_encode", "stuff_error_detected_cycle", "run_split", "front_blocks",
                      "back_blocks", "unstuff_run", "shifter_bytes", "lock", "reset_idle", "idle_holds_error",
                      # the clock-domain crossing (Model/Phy/FsRxCdc.lean)
-                     "fifo_isolated_write", "fifo_idle"]
+                     "fifo_isolated_write", "fifo_idle", "fifo_block_write", "fifo_stream", "cdc_split", "evN_bits",
+                     "evS_bits", "packet_streams", "combine", "rx_delivers_to_usb"]
 RULE = ("tx: packets of 1..70 random / all-ones / stuffing-boundary bytes, tx_data garbage between packets, random "
         "inter-packet gaps, the producer holds each byte until tx_ready; the D+/D- waveform is compared bit by bit "
         "with the Lean `encode` and with an independent Python encoder.  txc/txp: the cycle-level Lean model of the "
@@ -64,22 +67,27 @@ ASSUMPTIONS = [
     "changing in the same sample (no SE1, no glitches), any of the four sampling phases against the receiver's idle bit "
     "clock; the path starts in an idle state `idleSt c e` (bus idle for 15 cycles after reset, or 11 idle cycles after "
     "the previous packet; c = free-running bit-stuff counter 0..6, e = error latch of the previous packet, both "
-    "arbitrary); the two AsyncFIFOBuffered clock-domain crossings are not modelled: the theorems are about what is "
-    "written into them (each FIFO taken as an in-order queue with unbounded delay)",
+    "arbitrary); rx_pipeline_decodes_encode / stuff_error_detected_cycle are about what is written into the two "
+    "AsyncFIFOBuffered clock-domain crossings",
+    "end-to-end receive theorem rx_delivers_to_usb: in addition usb (12 MHz) is usb_io (48 MHz) divided by 4, edge aligned, "
+    "any constant phase; both FIFOs empty and settled when the packet starts (any pointer position / memory contents; "
+    "true 15 cycles after reset and 27 idle cycles after the previous packet); the packet has at least one byte; "
+    "Amaranth 0.5.9's AsyncFIFOBuffered as modelled in Model/Phy/FsRxCdc.lean (tied to the real one by the rxd cases)",
 ]
 PARTIAL = ("Transmit direction fully in theorems over the cycle-level model that is co-simulated against the gateware "
            "(tx_pipeline_emits_encode, each_byte_accepted_once, for all byte lists, all four clock phases, any number of "
            "packets), as are the line code (decode_encode, no_seven_ones_on_wire, stuff_error_detected) and the op-mode / "
-           "pull-up / pull-down glue.  Receive direction: the cycle-level model FsRx of the whole 48 MHz receive chain "
-           "(co-simulated against the real RxPipeline on 21 internal signals) is proved to turn the nominal-rate waveform "
-           "of `encode bytes`, in any sampling phase, into exactly start, the bytes in order, end at the write ports of "
-           "the clock-domain crossing with the latched error low (rx_pipeline_decodes_encode), and to latch the error for "
-           "seven consecutive 1s (stuff_error_detected_cycle).  NOT in a theorem (co-simulation only): (1) the 48 MHz "
-           "clock/data recovery when the transmitter's bit clock is off-nominal (+-0.25% drift, jitter: runtime timing) -- "
-           "the theorems assume exactly four samples per bit; (2) Amaranth's two AsyncFIFOBuffered (Gray counters, 2-FF "
-           "synchronizers, output register) between the write ports and rx_data/rx_valid/rx_active in the 12 MHz domain: "
-           "taken as in-order queues; that they never fill and that flags and bytes keep their relative order across the "
-           "two FIFOs is checked by the rx cases on the real GatewarePHY only.")
+           "pull-up / pull-down glue.  Receive direction: over the cycle-level models of the whole receive chain and of "
+           "its clock-domain crossing (both co-simulated against the real RxPipeline cycle by cycle), the nominal-rate "
+           "waveform of `encode bytes`, in any sampling phase and any usb clock phase, is delivered to the 12 MHz side as "
+           "exactly start, the bytes in order with strobe while in-progress, end, with no error while in progress "
+           "(rx_delivers_to_usb, rx_pipeline_decodes_encode), and seven consecutive 1s latch the error until the next "
+           "packet start (stuff_error_detected_cycle).  NOT in a theorem (co-simulation only): the 48 MHz clock/data "
+           "recovery when the transmitter's bit clock is off-nominal (+-0.25% drift, jitter: runtime timing) -- the receive "
+           "theorems assume exactly four samples per bit and both lines switching in the same sample; and that the latched "
+           "error of a bit-stuffing violation is seen by the 12 MHz side while rx_active is still high is proved only up to "
+           "the usb_io-domain latch (its visibility at a usb edge during in-progress is shown on an instance and by the "
+           "rx / rxd cases).")
 
 SE0, J, K = 0, 1, 2
 
